@@ -154,6 +154,7 @@ func runC01(c *core.Ctx, r *core.Reporter) {
 	c01emptynil(c, r)
 	c01parents(c, r)
 	c01dotest(c, r)
+	c01values(c, r)
 	const once = "C01.once"
 	const branch = "C01.branch"
 	r.Rule(once, "in the Call method of each core form (and the helpers in its package that it calls statically), no two distinct evaluation sites with the same list operand and the same index (constants folded; or the same SSA index value inside one loop iteration) lie on one path", 25)
